@@ -364,6 +364,7 @@ def gen_mutate(draw):
         segs[0] = '**'
     return {'tree': gen_tree(draw, depth), 'segs': segs, 'final': draw(st.sampled_from(['x', 'y', 'new'])),
             'op': draw(st.sampled_from(['assign', 'assign', 'delete'])),
+            'ignore_missing': draw(st.booleans()),
             'api': draw(st.sampled_from(['func', 'spec']))}
 
 
@@ -381,8 +382,21 @@ def check_mutate(recipe, ctx):
     entries = flatten(refstar(rb.obj, segs), nwild)
     exp_err = None
     rb.log.reset()
+    ign = bool(recipe.get('ignore_missing')) and op == 'delete'
     for e in entries:
         try:
+            if ign:
+                # with ignore_missing=True an entry that lacks the element is skipped, the others are still deleted
+                try:
+                    if isinstance(e, dict):
+                        del e[final]
+                    elif isinstance(e, list):
+                        del e[int(final)]
+                    else:
+                        delattr(e, final)
+                except (KeyError, IndexError, AttributeError, ValueError):
+                    pass
+                continue
             if op == 'assign':
                 if isinstance(e, dict):
                     e[final] = 'V'
@@ -403,6 +417,8 @@ def check_mutate(recipe, ctx):
     exp_log = [x for x in rb.log if x[1] in ('setitem', 'delitem', 'setattr', 'delattr')]
     gb = build_graph(recipe['tree'])
     path = '.'.join(segs + [final])
+    if ign:
+        ctx.label('delete-ignore-missing')
     ctx.label('op-' + op, 'wild-%d' % nwild, 'entries-%d' % min(len(entries), 3),
               'exp-err' if exp_err is not None else 'exp-ok')
     ctx.nontrivial(nwild >= 2 or len(entries) >= 2)
@@ -412,7 +428,11 @@ def check_mutate(recipe, ctx):
         if op == 'assign':
             res = glom.assign(gb.obj, path, 'V') if recipe['api'] == 'func' else glom.glom(gb.obj, Assign(path, 'V'))
         else:
-            res = glom.delete(gb.obj, path) if recipe['api'] == 'func' else glom.glom(gb.obj, Delete(path))
+            if ign:
+                res = glom.delete(gb.obj, path, ignore_missing=True) if recipe['api'] == 'func' \
+                    else glom.glom(gb.obj, Delete(path, ignore_missing=True))
+            else:
+                res = glom.delete(gb.obj, path) if recipe['api'] == 'func' else glom.glom(gb.obj, Delete(path))
         got_err = None
     except GlomError as e:
         got_err = e
